@@ -201,13 +201,26 @@ func (c *Catalog) AddDescriptionToInfo(text string) error {
 	return nil
 }
 
+// hasInteractionWritten reports whether an interaction with this textual id is in the catalog already. The text is the key
+// of the interaction in the exchange document, and quoted parameters with blanks can make the texts of two different
+// interactions coincide (the method "foo" of the URL "/x /a" and the method "foo /x" of the URL "/a").
+func (c *Catalog) hasInteractionWritten(id string) bool {
+	found := false
+	c.Interactions.EachSafe(func(k InteractionID, _ Interaction) {
+		if k.String() == id {
+			found = true
+		}
+	})
+	return found
+}
+
 func (c *Catalog) AddHTTPMethod(d directive.Directive) *jerr.JApiError {
 	httpID, err := newHTTPInteractionID(d)
 	if err != nil {
 		return d.KeywordError(err.Error())
 	}
 
-	if c.Interactions.Has(httpID) {
+	if c.Interactions.Has(httpID) || c.hasInteractionWritten(httpID.String()) {
 		return d.KeywordError(fmt.Sprintf("%s %q", jerr.MethodIsAlreadyDefinedInResource, httpID.String()))
 	}
 
@@ -528,7 +541,7 @@ func (c *Catalog) AddJsonRpcMethod(d directive.Directive) *jerr.JApiError {
 		return d.KeywordError(err.Error())
 	}
 
-	if c.Interactions.Has(rpcId) {
+	if c.Interactions.Has(rpcId) || c.hasInteractionWritten(rpcId.String()) {
 		return d.KeywordError(fmt.Sprintf("%s %q", jerr.MethodIsAlreadyDefinedInResource, rpcId.String()))
 	}
 
